@@ -724,7 +724,7 @@ func c06Grpc(c *Ctx, prop string, sfx *streamFx) {
 		h2 := true
 		sendBody := body
 		if strings.HasPrefix(proto_, "web") {
-			h2 = false
+			h2 = c.Rng.Intn(3) == 0 // gRPC-web also arrives over HTTP/2 (browsers against TLS endpoints, Envoy)
 			hdr["Content-Type"] = "application/grpc-web+proto"
 			if proto_ == "web-text" {
 				hdr["Content-Type"] = "application/grpc-web-text+proto"
@@ -735,7 +735,7 @@ func c06Grpc(c *Ctx, prop string, sfx *streamFx) {
 		eofd := c.Rng.Intn(2) == 0
 		sfx.reset(nil)
 		rec, pn := sfx.serveStream("POST", "/verif.v1.Svc/Up", hdr, sendBody, sched, eofd, h2)
-		in := fmt.Sprintf("%s msgs=%d wire=%x cut=%d bad-gzip-frame=%d sched=%s eofWithData=%v", proto_, len(msgs), trunc(wire, 80), cut, bad, intsCSV(trunc2(sched, 20)), eofd)
+		in := fmt.Sprintf("%s msgs=%d wire=%x cut=%d bad-gzip-frame=%d sched=%s eofWithData=%v http2=%v", proto_, len(msgs), trunc(wire, 80), cut, bad, intsCSV(trunc2(sched, 20)), eofd, h2)
 		kind := proto_ + "-up"
 		c.count(kind, in, len(msgs) > 0)
 		if pn != nil {
@@ -881,8 +881,9 @@ func c06Grpc(c *Ctx, prop string, sfx *streamFx) {
 			ct = "application/grpc-web-text+proto"
 			body = []byte(base64.StdEncoding.EncodeToString(body))
 		}
-		rec, pn := sfx.serveStream("POST", "/verif.v1.Svc/Down", map[string]string{"Content-Type": ct}, body, nil, false, false)
-		in := fmt.Sprintf("web-down replies=%d fail=%v text=%v", k, fail, text)
+		webH2 := i%3 == 1
+		rec, pn := sfx.serveStream("POST", "/verif.v1.Svc/Down", map[string]string{"Content-Type": ct}, body, nil, false, webH2)
+		in := fmt.Sprintf("web-down replies=%d fail=%v text=%v http2=%v", k, fail, text, webH2)
 		c.Eval("web-down", in, true)
 		if pn != nil {
 			c.SpecFail("web-down", in, fmt.Sprint("panic: ", pn), "a response", "C06/web-down/panic", "panic")
@@ -1141,6 +1142,32 @@ func c06Proxy(c *Ctx) {
 				if !ok {
 					c.SpecFail("proxy-sequence", in, fmt.Sprintf("backend got %d messages, end-of-stream=%v; client: %s hung=%v", len(gotMsgs), closed, out.String(), out.hung), fmt.Sprintf("%d messages in order, then end-of-stream; status OK", nmsg), "C06/proxy/"+sh.name+"/sequence", "the backend behind the proxy does not receive the client's message sequence followed by a clean end-of-stream")
 				}
+			}
+		}
+	}
+	// the other direction: a server-streaming (not client-streaming) method behind the proxy — every
+	// reply in order, then the backend's own final status
+	for _, replies := range []int{0, 1, 2, 5} {
+		for _, code := range []codes.Code{codes.OK, codes.Aborted} {
+			id++
+			cid := fmt.Sprint("c06p", id)
+			failAt := -2
+			if code != codes.OK {
+				failAt = replies
+			}
+			m := backFx.NewMsg("Req")
+			m.Set(m.Descriptor().Fields().ByName("name"), protoreflect.ValueOfString("ss"))
+			md := metadata.Pairs("x-c10-id", cid, "x-c10-script", fmt.Sprintf("%d,%d,%d,0", replies, int(code), failAt), "x-c10-msg-bin", "", "x-c10-details", "0")
+			out := c10Call(fcc, backFx, "SS", false, true, []*dynamicpb.Message{m}, md, 0)
+			in := fmt.Sprintf("proxied SS over gRPC: the backend answers %d replies, then %v", replies, code)
+			c.Eval("proxy-sequence", in, true)
+			c.Class("proxy:SS")
+			ok := !out.hung && out.code == code && len(out.replies) == replies
+			for k := 0; ok && k < replies; k++ {
+				ok = strings.Contains(out.replies[k], fmt.Sprint("r", k))
+			}
+			if !ok {
+				c.SpecFail("proxy-sequence", in, out.String()+fmt.Sprint(" hung=", out.hung), fmt.Sprintf("%d replies r0.. in order, then %v", replies, code), "C06/proxy/SS/sequence", "the client of a proxied server stream does not get the backend's reply sequence followed by its final status")
 			}
 		}
 	}
